@@ -1,15 +1,73 @@
-(* Props/C11.v -- property C11 (provisional instance; the general theorems are being added) *)
-From Coq Require Import ZArith NArith List.
-From RP Require Import Base.Bits Model.Codec Model.Showdown Model.Game Spec.SpecNLHE Spec.SpecGameInv.
+(* Props/C11.v -- property C11: the abstract action menu (Game::choices / actionize) at every
+   reachable decision node.  (C11_pack is proved with the codecs, property C15.) *)
+From Coq Require Import ZArith NArith List Bool.
+From RP Require Import Base.Bits Gen.GenLib Gen.GenAbstract Model.Codec Model.Showdown Model.Game
+                       Spec.SpecNLHE Spec.SpecGameInv Spec.SpecMenu
+                       Proofs.C03_Examples Proofs.C11_Menu.
 Import ListNotations.
 Open Scope Z_scope.
-Definition ex_holes : list N := [mask_of_bits [51; 50]%N; mask_of_bits [41; 40]%N].
-(* after Call(1), Check pre-flop the engine and the rule book both await the flop, and a raise is rejected *)
-Theorem C11_chance_instance :
-  match root Standard ex_holes with
-  | Some g0 => match run Standard g0 [Call 1; Check] with
-               | Some g => turn_of g = Chance /\ is_allowed Standard g (Raise 2) = Some false
-               | None => False end
-  | None => False end.
-Proof. vm_compute. split; reflexivity. Qed.
-Print Assumptions C11_chance_instance.
+
+(* the menu exists (no panic), is non-empty and has no duplicate edge *)
+Theorem C11_menu : forall d hs g n i,
+  wf_holes d hs -> reachable d hs g -> turn_of g = Choice i -> 0 <= n ->
+  exists es, choices g n = Some es /\ es <> [] /\ NoDup es.
+Proof. exact menu_ok. Qed.
+Print Assumptions C11_menu.
+
+(* every edge of the menu translates to an action the engine accepts *)
+Theorem C11_accepts : forall d hs g n i es e,
+  wf_holes d hs -> reachable d hs g -> turn_of g = Choice i ->
+  choices g n = Some es -> In e es -> is_allowed d g (actionize g e) = Some true.
+Proof. exact menu_accepts. Qed.
+Print Assumptions C11_accepts.
+
+(* larger pot fractions give larger (or equal) amounts; an all-in counts as the stack.
+   Any state with a non-negative pot and to_raise <= to_shove ... *)
+Theorem C11_monotone : forall g n1 d1 n2 d2,
+  0 <= pot g -> to_raise g <= to_shove g -> 0 < d1 -> 0 < d2 -> n1 * d2 <= n2 * d1 ->
+  amount_of (actionize g (ERaise n1 d1)) <= amount_of (actionize g (ERaise n2 d2)).
+Proof. exact monotone. Qed.
+Print Assumptions C11_monotone.
+(* ... in particular every reachable decision node whose menu offers a raise edge *)
+Theorem C11_monotone_menu : forall d hs g n i es n1 d1 n2 d2,
+  wf_holes d hs -> reachable d hs g -> turn_of g = Choice i -> choices g n = Some es ->
+  In (ERaise n1 d1) es -> 0 < d1 -> 0 < d2 -> n1 * d2 <= n2 * d1 ->
+  amount_of (actionize g (ERaise n1 d1)) <= amount_of (actionize g (ERaise n2 d2)).
+Proof. exact monotone_menu. Qed.
+Print Assumptions C11_monotone_menu.
+
+(* snapping of bet = pot * num / den into [to_raise, to_shove] (definitional) ... *)
+Theorem C11_snap : forall g num den,
+  let bet := pot g * num / den in
+  (to_shove g <= bet -> actionize g (ERaise num den) = Shove (to_shove g)) /\
+  (bet < to_shove g -> bet <= to_raise g -> actionize g (ERaise num den) = Raise (to_raise g)) /\
+  (bet < to_shove g -> to_raise g < bet -> actionize g (ERaise num den) = Raise bet) /\
+  (to_raise g <= to_shove g ->
+   to_raise g <= amount_of (actionize g (ERaise num den)) <= to_shove g).
+Proof. exact snap. Qed.
+Print Assumptions C11_snap.
+(* ... and when a raise edge is on the menu of a reachable decision node the amount lies in
+   [to_raise, to_shove]; a Raise stays below the stack, a Shove is exactly the stack *)
+Theorem C11_snap_menu : forall d hs g n i es num den,
+  wf_holes d hs -> reachable d hs g -> turn_of g = Choice i ->
+  choices g n = Some es -> In (ERaise num den) es ->
+  to_raise g < to_shove g /\
+  to_raise g <= amount_of (actionize g (ERaise num den)) <= to_shove g /\
+  (forall x, actionize g (ERaise num den) = Raise x -> to_raise g <= x <= to_shove g - 1) /\
+  (forall x, actionize g (ERaise num den) = Shove x -> x = to_shove g).
+Proof. exact snap_menu. Qed.
+Print Assumptions C11_snap_menu.
+
+(* ---------- examples: the hypotheses are satisfiable ---------- *)
+(* the root is a reachable decision node; its menu: the ten pre-flop raise sizes, all-in, call,
+   fold; 1/4 and 1/1 pot snap up to the minimum raise 3, 4/1 pot is Raise 12 *)
+Example C11_hyps_menu :
+  exists g0, root Standard ex_holes = Some g0 /\ reachable Standard ex_holes g0 /\ turn_of g0 = Choice 1 /\
+    choices g0 0 = Some (map (fun o => ERaise (fst o) (snd o)) PREF_RAISES ++ [EShove; ECall; EFold]) /\
+    map (actionize g0) [ERaise 1 4; ERaise 1 1; ERaise 4 1; EShove; ECall; EFold]
+    = [Raise 3; Raise 3; Raise 12; Shove 99; Call 1; Fold].
+Proof. exact ex_menu_root. Qed.
+Example C11_hyps_wf : wf_holes Standard ex_holes.
+Proof. exact ex_holes_wf. Qed.
+Example C11_hyps_monotone : 0 < 2 /\ 0 < 1 /\ 1 * 1 <= 1 * 2.
+Proof. repeat split; reflexivity || discriminate. Qed.
